@@ -82,6 +82,60 @@ pub struct NodeSpec {
     pub server_name: String,
     pub alternate_server_name: Option<String>,
     pub config: anemo::Config,
+    /// application middleware installed with `Builder::outbound_request_layer`
+    pub outbound_layer: Option<OutboundLayer>,
+}
+
+/// An application's outbound middleware: optionally lets only `permits` calls through at a time
+/// (the others wait inside the layer, like a client-side limiter) and/or adds a header to every
+/// request (like a tracing or auth layer).
+#[derive(Clone, Debug, Default)]
+pub struct OutboundLayer {
+    pub gate: Option<Arc<tokio::sync::Semaphore>>,
+    pub add_header: Option<(String, String)>,
+}
+
+#[derive(Clone)]
+pub struct OutboundSvc<S> {
+    cfg: OutboundLayer,
+    inner: Option<S>,
+}
+
+impl<S> tower::Layer<S> for OutboundLayer {
+    type Service = OutboundSvc<S>;
+    fn layer(&self, inner: S) -> OutboundSvc<S> {
+        OutboundSvc { cfg: self.clone(), inner: Some(inner) }
+    }
+}
+
+impl<S> tower::Service<anemo::Request<bytes::Bytes>> for OutboundSvc<S>
+where
+    S: tower::Service<anemo::Request<bytes::Bytes>, Response = anemo::Response<bytes::Bytes>, Error = anemo::Error> + Send + 'static,
+    S::Future: Send + 'static,
+{
+    type Response = anemo::Response<bytes::Bytes>;
+    type Error = anemo::Error;
+    type Future = futures::future::BoxFuture<'static, Result<Self::Response, Self::Error>>;
+    fn poll_ready(&mut self, _: &mut std::task::Context<'_>) -> std::task::Poll<Result<(), Self::Error>> {
+        std::task::Poll::Ready(Ok(()))
+    }
+    fn call(&mut self, mut req: anemo::Request<bytes::Bytes>) -> Self::Future {
+        let cfg = self.cfg.clone();
+        let inner = self.inner.take();
+        Box::pin(async move {
+            let _permit = match &cfg.gate {
+                Some(g) => Some(g.clone().acquire_owned().await),
+                None => None,
+            };
+            if let Some((k, v)) = &cfg.add_header {
+                req.headers_mut().insert(k.clone(), v.clone());
+            }
+            match inner {
+                Some(svc) => tower::ServiceExt::oneshot(svc, req).await,
+                None => Err(anemo::Error::msg("outbound layer used twice")),
+            }
+        })
+    }
 }
 
 impl NodeSpec {
@@ -92,6 +146,7 @@ impl NodeSpec {
             server_name: "simnet".into(),
             alternate_server_name: None,
             config: base_config(),
+            outbound_layer: None,
         }
     }
     pub fn peer_id(&self) -> PeerId {
@@ -130,6 +185,9 @@ impl Sim {
             .config(spec.config.clone());
         if let Some(alt) = &spec.alternate_server_name {
             b = b.alternate_server_name(alt.clone());
+        }
+        if let Some(l) = &spec.outbound_layer {
+            b = b.outbound_request_layer(l.clone());
         }
         let r = b.start(service);
         // make sure a failed start never leaves the socket injected for someone else
